@@ -37,6 +37,7 @@ type vnode struct {
 	bytes   []byte
 	links   []int // every child the document names (config, layers, blobs, manifests, subject), with repeats
 	foreign []int // children named only through a foreign (non-distributable) layer entry
+	subject int   // node named as subject, or -1
 	succ    []int // distinct children that must be copied
 }
 
@@ -48,6 +49,7 @@ func symDAG(K int) []vnode {
 	nodes := make([]vnode, 0, K)
 	for i := 0; i < K; i++ {
 		var n vnode
+		n.subject = -1
 		kind := kindBlob
 		if i > 0 {
 			kind = verifrt.Choice(manifestKinds())
@@ -66,14 +68,14 @@ func symDAG(K int) []vnode {
 						blobs = append(blobs, j)
 					}
 				}
-				if len(blobs) > 0 {
+				if len(blobs) > 0 && verifrt.Param("dup", 1) != 0 {
 					if c := verifrt.Choice(len(blobs) + 1); c > 0 {
 						n.bytes = append([]byte(nil), nodes[blobs[c-1]].bytes...)
 					}
 				}
 			}
 			mt := "application/vnd.oci.image.layer.v1.tar"
-			if i > 0 && verifrt.Bool() {
+			if i > 0 && verifrt.Param("dup", 1) != 0 && verifrt.Bool() {
 				mt = "application/octet-stream" // same bytes may appear under two media types
 			}
 			n.desc = content.NewDescriptorFromBytes(mt, n.bytes)
@@ -103,6 +105,7 @@ func symDAG(K int) []vnode {
 				j := cands[verifrt.Choice(len(cands))]
 				d := nodes[j].desc
 				subject = &d
+				n.subject = j
 				n.links = append(n.links, j)
 			}
 		}
@@ -116,14 +119,15 @@ func symDAG(K int) []vnode {
 				m.MediaType = "application/vnd.docker.distribution.manifest.v2+json"
 			}
 			m.Layers = []ocispec.Descriptor{}
+			simple := verifrt.Param("simple", 0) != 0 // no foreign layers, no repeated layers
 			for _, j := range pick() {
 				d := nodes[j].desc
-				if verifrt.Bool() {
+				if !simple && verifrt.Bool() {
 					d.MediaType = foreignLayerType
 					n.foreign = append(n.foreign, j)
 				} else {
 					n.links = append(n.links, j)
-					if verifrt.Bool() { // the same layer listed twice
+					if !simple && verifrt.Bool() { // the same layer listed twice
 						m.Layers = append(m.Layers, d)
 						n.links = append(n.links, j)
 					}
